@@ -396,6 +396,7 @@ var c11LinePool = []string{
 	"\xa0||latin1.example^", "\x85||nel.example^", "\xbf0.0.0.0 example.org", // first byte is a UTF-8 continuation byte
 	"||example.org^$dnsrewrite=1.2.3.4", "||example.org^$client='Frank\\'s laptop'", "/regex[0-9]+/", "  ||trimmed.example^  ",
 	"cn", "io", "a", "ab", "a.b", // the shortest lines there are
+	"@@||example.org^$elemhide", "@@||example.org^$document", "@@||a.com^$generichide,important", "@@||google.com^$jsinject,elemhide", // exceptions that switch cosmetic options off are network rules
 	"  ##.banner", "\t example.org##.ad", " #@#.x", "   example.org#$#body{}", " ! indented comment", "  # indented hosts comment", // indented cosmetic rules and comments
 }
 
